@@ -62,7 +62,16 @@ def compile_with(lib, base_xml, sensors):
 def run_state(lib, m, seed, nsteps):
   """The procedure that defines 'the same state' for the metamorphic isolation check."""
   d = lib.make_data(m)
-  mg.apply_state(lib, m, d, seed)
+  rng = mg.apply_state(lib, m, d, seed)
+  if nsteps == 0 and rng.rand() < 0.3:
+    # un-normalised ball / free quaternions are a legal input (the engine normalises internally; ballquat is
+    # documented to output a unit quaternion)
+    for j in range(int(m.njnt)):
+      t, a = int(m.jnt_type[j]), int(m.jnt_qposadr[j])
+      if t == 1:
+        d.qpos[a:a + 4] *= rng.uniform(0.5, 2.0)
+      elif t == 0:
+        d.qpos[a + 3:a + 7] *= rng.uniform(0.5, 2.0)
   for _ in range(nsteps):
     lib.mj_step(m, d)
   if m.nsensordata:
@@ -202,6 +211,12 @@ def check_case(ck, lib, gm, seed, nsteps, stats):
     if kind in ACC_KINDS and body >= 0 and int(m.body_dofnum[int(m.body_weldid[body])]) == 0:
       stats['findings']['excluded-static-acc-in-main-stream'] += 1     # 0 by construction of the generator
       continue
+    if kind == 'rangefinder' and int(m.sensor_objtype[i]) == E.mjOBJ_CAMERA:
+      # known finding C28:multiray-cull (mj_multiRay culls bodies with an unrotated bounding-sphere centre): camera
+      # rangefinders are law-checked by multiray_probe() only; here they take part in the isolation checks
+      stats['findings']['excluded-camera-rangefinder-in-main-stream'] += 1
+      stats['cov'][tag + '|isolation(camera-rangefinder: see multiray probe)'] += 1
+      continue
     r = so.expect(w, i, s)
     level = r.level if r.mode != 'none' else 'isolation'
     stats['cov']['%s|%s%s' % (tag, level, ('(' + r.note + ')') if r.note else '')] += 1
@@ -268,6 +283,7 @@ def check_case(ck, lib, gm, seed, nsteps, stats):
   stats['gen_excluded'] = stats.get('gen_excluded', 0) + info.get('excluded_static_acc', 0)
   stats['rk4_excluded'] = stats.get('rk4_excluded', 0) + info.get('excluded_rk4_delay', 0)
   stats['ekin_excluded'] = stats.get('ekin_excluded', 0) + info.get('excluded_ekinetic_energyflag', 0)
+  stats['capbox_excluded'] = stats.get('capbox_excluded', 0) + info.get('excluded_capsulebox_cutoff', 0)
   if nefc > 0:
     stats['nefc>0'] += 1
   labels = ['nefc>0' if nefc else 'nefc=0', 'ncon>0' if int(d.ncon) else 'ncon=0', 'nsteps=%d' % nsteps]
@@ -330,6 +346,142 @@ def static_acc_probe(ck, lib, n):
     ck.case(nontrivial=False, key=(xml, seed), labels=['static-acc-probe'])
   ck.run_hypothesis(test, static_acc_cases(), n, name='static-acc-probe')
   ck.extra['static_acc_probe_hits'] = hits[0]
+
+
+@st.composite
+def capsulebox_cases(draw):
+  def pose():
+    return 'pos="%s" quat="%s"' % (mg.fmt([draw(mg.num(-1.5, 1.5)) for _ in range(3)]), mg.fmt(draw(mg.unit_quat())))
+  cap = '<geom name="c" type="capsule" size="%s %s" %s/>' % (mg.fmt(draw(mg.num(0.02, 0.2))), mg.fmt(draw(mg.num(0.02, 0.3))), pose())
+  box = '<geom name="b" type="box" size="%s" %s/>' % (mg.fmt([draw(mg.num(0.02, 0.3)) for _ in range(3)]), pose())
+  cutoff = draw(st.sampled_from([0.3, 1.0, 2.0, 3.0, 5.0, 10.0]))
+  swap = draw(st.booleans())
+  el = draw(st.sampled_from(['distance', 'normal', 'fromto']))
+  xml = ('<mujoco><worldbody><body>%s</body><body>%s</body></worldbody><sensor><%s geom1="%s" geom2="%s" cutoff="%s"/>'
+         '</sensor></mujoco>' % (cap, box, el, 'b' if swap else 'c', 'c' if swap else 'b', mg.fmt(cutoff)))
+  return xml, el, cutoff
+
+
+def capsulebox_probe(ck, lib, n):
+  """collision sensors on a capsule-box pair: 'cutoff defines the maximum distance at which collisions will be
+  detected'; reference distance = distance from the capsule axis segment to the box minus the radius."""
+  hits = [0]
+
+  def test(case):
+    xml, el, cutoff = case
+    m = lib.model_from_xml(xml)
+    d = lib.make_data(m)
+    lib.mj_forward(m, d)
+    w = so.World(lib, m, d)
+    r = so.expect(w, 0, dict(kind=el, attrs={}))
+    got = np.array(d.sensordata[:int(m.sensor_dim[0])])
+    if r.mode == 'tol':
+      ok = bool(np.all(np.abs(got - r.want) <= r.tol))
+      msg = 'got %r documented %r' % (got.tolist(), r.want.tolist())
+    elif r.mode == 'custom':
+      ok, msg = r.check(got)
+    else:
+      ck.label('capsulebox-probe:' + (r.note or r.mode))
+      return
+    if not ok:
+      td = so.pair_true_distance(w, 0, 1)
+      full = '%s: %s (true distance %r, cutoff %g)\n%s' % (el, msg, td, cutoff, xml)
+      undetected = (got[0] == cutoff) if el == 'distance' else bool(np.all(got == 0))
+      if r.level == 'oracle' and td is not None and 1e-3 < td < cutoff - 1e-3 and cutoff > 1 and undetected:
+        ck.violation(full, dict(xml=xml), bucket='known:capsulebox-distmax', fingerprint='C28:capsulebox-distmax')
+        hits[0] += 1
+        return
+      raise Violation(full, bucket='law:' + el)
+    ck.case(nontrivial=False, key=xml, labels=['capsulebox-probe'])
+  ck.run_hypothesis(test, capsulebox_cases(), n, name='capsulebox-probe')
+  ck.extra['capsulebox_probe_hits'] = hits[0]
+
+
+@st.composite
+def multiray_cases(draw):
+  gm = draw(gs.sensor_models(max_bodies=5, max_sensors=3, min_sensors=1, history=False))
+  cams = [c for c in gm.info['cameras']]
+  if not cams:
+    cams = ['cw']
+    gm.info['base_xml'] = gm.info['base_xml'].replace('<worldbody>', '<worldbody><camera name="cw" pos="0.3 -0.4 1.2" '
+                                                      'quat="0.9 0.3 0.1 0.2" resolution="3 2"/>', 1)
+  sens = []
+  for k in range(draw(st.integers(1, 3))):
+    a = dict(camera=draw(st.sampled_from(cams)))
+    if draw(st.integers(0, 3)):
+      a['data'] = ' '.join(draw(gs._subset_in_order(gs.RAY_FIELDS)))
+    sens.append(dict(kind='rangefinder', obj='camera', ref='none', cutoff=0.0, hist=None, attrs=a,
+                     xml='<rangefinder%s/>' % gs._attrs(a)))
+  return gm.info['base_xml'], sens, draw(mg.state_seed())
+
+
+def multiray_probe(ck, lib, n):
+  """rangefinder attached to a perspective camera: one ray per pixel (row-major from the top-left pixel, through the
+  pixel centres of the pinhole model that camprojection documents), nearest surface per ray, data fields."""
+  hits = [0]
+  E = lib.enums
+
+  def test(case):
+    base, sens, seed = case
+    try:
+      m = lib.model_from_xml(gs.build_xml(base, sens))
+    except mj.MjError:
+      ck.discard('compile')
+      return
+    d = lib.make_data(m)
+    mg.apply_state(lib, m, d, seed)
+    lib.mj_forward(m, d)
+    w = so.World(lib, m, d)
+    for i, s in enumerate(sens):
+      r = so.expect(w, i, s)
+      if r.mode != 'tol':
+        ck.label('multiray-probe:' + (r.note or r.mode))
+        continue
+      a, n_ = int(m.sensor_adr[i]), int(m.sensor_dim[i])
+      got = np.array(d.sensordata[a:a + n_])
+      err = np.abs(got - r.want)
+      if np.all(err <= r.tol):
+        continue
+      # classify: per ray, did the engine miss a nearer surface (no hit, or a farther hit than the reference)?
+      fields = (s['attrs'].get('data') or 'dist').split()
+      size = sum(so.RAY_SIZE[f] for f in fields)
+      cam = int(m.sensor_objid[i])
+      p, R, b = w.frame(E.mjOBJ_CAMERA, cam)
+      W, H = int(m.cam_resolution[cam][0]), int(m.cam_resolution[cam][1])
+      f = 0.5 * H / np.tan(np.radians(float(m.cam_fovy[cam])) / 2)
+      missed = other = 0
+      k = 0
+      for row in range(H):
+        for col in range(W):
+          sl = slice(k * size, (k + 1) * size)
+          k += 1
+          if np.all(err[sl] <= r.tol):
+            continue
+          dc = np.array([(col + 0.5 - W / 2) / f, -(row + 0.5 - H / 2) / f, -1.0])
+          dr = R @ (dc / np.linalg.norm(dc))
+          gid = np.zeros(1, dtype=np.int32)
+          single = float(lib.mj_ray(m, d, p, dr, None, 1, b, gid, None))      # differential: single-ray API
+          ref = so.ray_nearest(w, p, dr, b)[0]
+          vec = np.ascontiguousarray(dr.reshape(1, 3))
+          dist = np.zeros(1)
+          lib.mj_multiRay(m, d, p, vec, None, 1, b, gid, dist, None, 1, 1e10)
+          multi = float(dist[0])
+          if abs(single - ref) <= 1e-9 * (1 + abs(ref)) and ref >= 0 and (multi < 0 or multi > ref + 1e-9):
+            missed += 1
+          else:
+            other += 1
+      msg = ('%s: got %r, documented %r; %d rays where mj_multiRay misses a surface that mj_ray and the reference hit, '
+             '%d other mismatching rays\nseed=%d\n%s' % (s['xml'], got.tolist(), r.want.tolist(), missed, other, seed,
+                                                       gs.build_xml(base, sens)))
+      if missed and not other:
+        ck.violation(msg, dict(xml=gs.build_xml(base, sens), seed=seed), bucket='known:multiray-cull',
+                     fingerprint='C28:multiray-cull')
+        hits[0] += 1
+        continue
+      raise Violation(msg, bucket='law:rangefinder-camera')
+    ck.case(nontrivial=False, key=(base, seed, tuple(s['xml'] for s in sens)), labels=['multiray-probe'])
+  ck.run_hypothesis(test, multiray_cases(), n, name='multiray-probe')
+  ck.extra['multiray_probe_hits'] = hits[0]
 
 
 @st.composite
@@ -401,12 +553,17 @@ def delay_cases(draw):
           '<actuator><motor name="m" joint="j" gear="%s"/></actuator>' % (
               h, integ, mg.fmt(draw(mg.num(0.05, 0.6))), mg.fmt(draw(mg.num(0, 1))),
               draw(st.sampled_from(['hinge', 'ball'])), mg.fmt(draw(mg.unit_quat())), mg.fmt(draw(mg.num(0.5, 3, 1)))))
-  dl = ' nsample="%d" delay="%r"%s' % (ns, k * h, interp)
+  mode = draw(st.sampled_from(['delay', 'delay', 'interval']))
+  if mode == 'delay':
+    dl = ' nsample="%d" delay="%r"%s' % (ns, k * h, interp)
+  else:
+    k = k + 1
+    dl = ' nsample="%d" interval="%r"%s' % (ns, k * h, interp)
   a, b = sens % dl, sens % ''
   def block(x):
     return '<sensor>%s</sensor></mujoco>' % ((other + x) if first else (x + other))
-  return dict(integ=integ, k=k, delayed=base + block(a), plain=base + block(b), idx=(1 if (first and other) else 0),
-              seed=draw(mg.state_seed()), nsteps=k + draw(st.integers(0, 4)), sensor=a)
+  return dict(integ=integ, k=k, mode=mode, delayed=base + block(a), plain=base + block(b), idx=(1 if (first and other) else 0),
+              seed=draw(mg.state_seed()), nsteps=k + draw(st.integers(0, 5)), sensor=a)
 
 
 def delay_probe(ck, lib, n):
@@ -429,7 +586,17 @@ def delay_probe(ck, lib, n):
       lib.mj_forward(m1, d1)
       lib.mj_forward(m2, d2)
       past.append(np.array(d2.sensordata[a2:a2 + n1]))
-      if step >= c['k']:
+      if c['mode'] == 'interval':
+        # CSensor/interval: recomputed at t = 0, period, 2 period ...; in between sensordata holds the last value
+        got = np.array(d1.sensordata[a1:a1 + n1])
+        want = past[(step // c['k']) * c['k']]
+        if not np.array_equal(bits(got), bits(want)):
+          raise Violation('%s (integrator %s): reading at step %d is %r, the last tick (step %d) computed %r, the '
+                          'undelayed sensor now reads %r\n%s' % (c['sensor'], c['integ'], step, got.tolist(),
+                                                                 (step // c['k']) * c['k'], want.tolist(),
+                                                                 past[step].tolist(), c['delayed']),
+                          bucket='interval:' + c['integ'])
+      elif step >= c['k']:
         got = np.array(d1.sensordata[a1:a1 + n1])
         want = past[step - c['k']]
         if not np.array_equal(bits(got), bits(want)):
@@ -442,7 +609,7 @@ def delay_probe(ck, lib, n):
           raise Violation(msg, bucket='delay:' + c['integ'])
       lib.mj_step(m1, d1)
       lib.mj_step(m2, d2)
-    ck.case(nontrivial=False, key=(c['delayed'], c['seed']), labels=['delay-probe', 'delay-probe:' + c['integ']])
+    ck.case(nontrivial=False, key=(c['delayed'], c['seed']), labels=['delay-probe', 'delay-probe:%s:%s' % (c['mode'], c['integ'])])
   ck.run_hypothesis(test, delay_cases(), n, name='delay-probe')
   ck.extra['rk4_delay_probe_hits'] = hits[0]
 
@@ -480,6 +647,8 @@ def main(ck):
   static_acc_probe(ck, lib, ck.budget(20, 300))
   delay_probe(ck, lib, ck.budget(40, 600))
   ekinetic_probe(ck, lib, ck.budget(30, 300))
+  multiray_probe(ck, lib, ck.budget(120, 3000))
+  capsulebox_probe(ck, lib, ck.budget(60, 1000))
   ck.extra['coverage_by_type_object_reference_level'] = dict(sorted(stats['cov'].items()))
   ck.extra['worst_error_over_tolerance_by_class'] = stats['worst']
   ck.extra['deep_and_nefc_by_type'] = dict(stats['deep'])
@@ -490,6 +659,7 @@ def main(ck):
   ck.extra['static_acc_exclusions']['generator_candidates_removed'] = stats['gen_excluded']
   ck.extra['rk4_delay_exclusions'] = stats.get('rk4_excluded', 0)
   ck.extra['ekinetic_energyflag_exclusions'] = stats.get('ekin_excluded', 0)
+  ck.extra['capsulebox_cutoff_exclusions'] = stats.get('capbox_excluded', 0)
 
 
 LEVEL = 'exploration'
